@@ -8,6 +8,11 @@ import re
 import sys
 
 rnd, outdir = sys.argv[1], sys.argv[2]
+HINTS = {
+    "4": "Triggers that earlier rounds under-used and that you should prefer now: an interaction between TWO public operations that are each correct alone; behaviour that depends on the dtype / byte order / read-only flag / subclass of an argument; a value at the edge of a documented range (exactly 0, exactly 1, a bound itself); a call made a second time with different arguments on the same object; a command line entry point used with a non-default option combination; an input whose entries are all equal or all distinct; a clause of the statement that the earlier seeds did not touch at all.",
+    "5": "Triggers that earlier rounds under-used and that you should prefer now: degenerate but legal inputs (zero rows, one row, one plate, one sample, a single posterior sample, an empty batch, an empty selection, n_chunks = 1 or far more chunks than items); ties and ordering (equal scores, equal sizes, equal names up to case or whitespace, already sorted versus reverse sorted input); numerical edges (exact 0 / 1 / bounds, subnormal and huge values, float32 versus float64 round trips, integer overflow of an index or a product); error paths (something the statement says must be REFUSED is now accepted, or the other way round); an option of a command line entry point that no earlier seed used; a library call sequence a downstream user would plausibly write (construct, mutate through a documented setter, call again); a clause of the statement that the earlier seeds did not touch at all.",
+}
+HINT = HINTS.get(rnd, HINTS["5"])
 only = set(sys.argv[3:])
 props = [json.loads(l) for l in open("/verif/properties.jsonl")]
 os.makedirs(outdir, exist_ok=True)
@@ -42,7 +47,7 @@ The property you must break (this is everything you are told about it):
   code it is anchored in: {anchors}
 
 
-Already used in earlier rounds for this property - do NOT reuse these mechanisms, code sites or triggers; find genuinely different ways to break the property (another function among the anchors or one of their callers / callees, another clause of the statement, another kind of trigger). Triggers that earlier rounds under-used and that you should prefer now: an interaction between TWO public operations that are each correct alone; behaviour that depends on the dtype / byte order / read-only flag / subclass of an argument; a value at the edge of a documented range (exactly 0, exactly 1, a bound itself); a call made a second time with different arguments on the same object; a command line entry point used with a non-default option combination; an input whose entries are all equal or all distinct; a clause of the statement that the earlier seeds did not touch at all. The change must contradict the STATEMENT as written (quote the clause in notes.md), not merely differ from the anchored implementation:
+Already used in earlier rounds for this property - do NOT reuse these mechanisms, code sites or triggers; find genuinely different ways to break the property (another function among the anchors or one of their callers / callees, another clause of the statement, another kind of trigger). {HINT} The change must contradict the STATEMENT as written (quote the clause in notes.md), not merely differ from the anchored implementation:
 """ + "\n".join(used) + "\n\n"
     t = tail.replace("/tmp/seed3-C05", wt)
     open(os.path.join(outdir, f"{pid}.txt"), "w").write(head + t)
